@@ -680,8 +680,41 @@ class Builder:
             out += self.probe(Is(last, INT, t=INT) if el == BYTE else last)
         return out
 
+    def index_clobber(self):
+        """`g = k; a[g] (op)= <expr calling g's mutator>;` - the index is a bare global that the right-hand side changes
+        after it was evaluated (and bounds-checked): the store must go to the old index."""
+        names = {v.name for scope in self.scopes for v in scope}
+        cands = [(n, m) for n, m in getattr(self, 'mutators', {}).items()
+                 if m[1] == INT and not is_arr(m[2].ty) and not m[2].frozen and n not in names]
+        arrs = self.vars_of(lambda v: is_arr(v.ty) and not v.ty[2] and v.static_len and v.ty[1] in (INT, BYTE, BOOL))
+        if not cands or not arrs:
+            return None
+        gname, (mname, _, g) = self.pick(cands)
+        a = self.pick(arrs)
+        el = a.ty[1]
+        k = self.integer(0, a.static_len - 1)
+        gv = Var(gname, t=INT)
+        call = Call(mname, [], t=INT)
+        tgt = Index(Var(a.name, t=a.ty), gv, t=el)
+        rhs = {INT: lambda: self.pick([call, Bin('+', call, self.int_lit(), t=INT)]),
+               BYTE: lambda: Is(call, BYTE, t=BYTE),
+               BOOL: lambda: Bin(self.pick(['>', '!=']), call, self.int_lit(), t=BOOL)}[el]()
+        out = [Assign(gv, Lit('int', k, None, t=INT))]
+        if el in (INT, BYTE) and self.chance(40):
+            out.append(AugAssign(tgt, self.pick(['+', '-', '*']), rhs if el == INT else Is(call, BYTE, t=BYTE)))
+        else:
+            out.append(Assign(tgt, rhs))
+        shown = Index(Var(a.name, t=a.ty), Lit('int', k, None, t=INT), t=el)
+        out += self.probe(Is(shown, INT, t=INT) if el == BYTE else shown)
+        out += self.probe(gv)
+        return out
+
     def assign_stmt(self):
         # scalar variable, plain or compound
+        if 'arrays' in self.F and 'globals' in self.F and 'calls' in self.F and not self.in_spec and self.chance(self.size.get('index_clobber_pct', 6)):
+            r = self.index_clobber()
+            if r is not None:
+                return r
         vs = self.vars_of(lambda v: not is_arr(v.ty) and not v.const and not v.frozen)
         arrs = self.vars_of(lambda v: is_arr(v.ty) and not v.ty[2]) if 'arrays' in self.F else []
         if arrs and (not vs or self.chance(40)):
